@@ -225,20 +225,22 @@ def r4_flags(ctx, f, rep, eff):
                   'num_active follows changed_active_set', construct='flags:%s' % q.variant_name(get('conflict')),
                   facts={'summary': show(s, b), 'changed': changed})
     rep.floor('C08-R4', n, 6, 'apply_existing_if summary paths')
-    # unknown member branch
+    # unknown member branch: the code that pushes the new record - the fallback closure of Members::apply, or the
+    # paths of apply itself that reach the push when it is written inline
     parent = f.fn('member::Members::apply')
-    clos = [c for c in f.closures_of('member::Members::apply')]
-    reg = None
-    for c in clos:
-        if any(t['res'].endswith('Vec::<member::Member<T>>::push') or strip_generics(t['res']) == 'alloc::vec::Vec::push'
-               for _, t in f.calls(c)):
-            reg = c
-    if reg is None:
-        rep.anchor_missing('C08-R4', 'registration closure of Members::apply')
-    else:
+    is_push = lambda res: res.endswith('Vec::<member::Member<T>>::push') or strip_generics(res) == 'alloc::vec::Vec::push'
+    regs = []
+    for c in [parent] + list(f.closures_of('member::Members::apply')):
+        if any(is_push(t['res']) for _, t in f.calls(c)):
+            regs.append(c)
+    if not regs:
+        rep.anchor_missing('C08-R4', 'registration code (push of the new record) of Members::apply')
+    nreg = 0
+    for reg in regs:
         for p in ctx.paths(f, reg, 'none'):
-            if p.end != 'return':
+            if p.end != 'return' or not any(is_push(e['res']) for e in p.calls()):
                 continue
+            nreg += 1
             calls = {c['id']: c for c in p.calls()}
             s = p.ret
             ian = q.agg_field(s, 'is_active_now')
@@ -246,15 +248,16 @@ def r4_flags(ctx, f, rep, eff):
                 q.agg_field(s, 'changed_active_set') == ian and q.agg_field(s, 'apply_successful') == ('const', 'bool', 1, 'true')
             act = [c for c in p.conds() if c['expr'] == ian]
             an = q.cond_truth(act[-1]) if act else None
-            naw = [w for w in p.writes() if w['place'][0] == 'deref' and
-                   (q.upvar_of(reg, w['place'][1]) or '').endswith('num_active')]
+            naw = [w for w in p.writes() if w['place'] == q.self_field('num_active') or
+                   (w['place'][0] == 'deref' and (q.upvar_of(reg, w['place'][1]) or '').endswith('num_active'))]
             if an is True:
                 good = good and len(naw) == 1 and naw[0]['value'][0] == 'call' and \
                     calls[naw[0]['value'][1]]['res'].endswith('saturating_add')
             else:
                 good = good and not naw
-            rep.check(good, 'C08-R4', reg.nname, 'new record: changed_active_set = is_active_now = update.is_active(); '
+            rep.check(good, 'C08-R4', 'member::Members::apply', 'new record: changed_active_set = is_active_now = update.is_active(); '
                       'num_active + 1 iff active', construct='register:%s' % an, facts={'summary': show(s, reg)})
+    rep.floor('C08-R4', nreg, 2, 'registration paths of Members::apply')
     w = set(eff.writers_of('member::Members', 'num_active'))
     rep.check(w <= {'member::Members::apply_existing_if', 'member::Members::apply::{closure#1}', 'member::Members::apply'}
               or all(x.startswith('member::Members::apply') for x in w), 'C08-R4', 'member::Members',
@@ -283,6 +286,7 @@ def check_remove_predicate(ctx, f, rep, rule):
         # collect what the path establishes
         id_eq = None
         down = None
+        is_state = lambda x: x[0] == 'load' and q.field_path(x[1])[1][-1:] == ['state']
         for c in p.conds():
             es = q.eq_sides(c['expr'])
             if es:
@@ -290,8 +294,9 @@ def check_remove_predicate(ctx, f, rep, rule):
                 sides = (a, b)
                 if any(x[0] == 'load' and q.field_path(x[1])[1][-1:] == ['id'] for x in sides):
                     id_eq = (q.cond_truth(c) == is_eq)
-                if any(q.is_variant(x, 'State', 'Down') for x in sides):
-                    down = (q.cond_truth(c) == is_eq)
+            vs = q.variant_test(f, c, is_state)
+            if vs is not None:
+                down = True if vs == {'Down'} else (False if 'Down' not in vs else down)
         r = p.ret
         if r[0] == 'const':
             res_true = bool(r[2])
@@ -350,16 +355,9 @@ def r5_state_machine(ctx, f, rep, eff):
         for c in p.conds():
             if c['expr'][0] == 'discr' and q.is_self_field_load(c['expr'][1], 'connection_state'):
                 st = q.cond_variants(f, c)
-            ex = c['expr']
-            if ex[0] == 'binop' and ex[2][0] == 'call' and calls[ex[2][1]]['res'] == 'member::Members::num_active' \
-                    and ex[3][0] == 'const' and ex[3][2] == 0:
-                t = q.cond_truth(c)
-                if ex[1] == 'Gt':
-                    na = 'pos' if t else 'zero'
-                elif ex[1] == 'Eq':
-                    na = 'zero' if t else 'pos'
-                elif ex[1] == 'Ne':
-                    na = 'pos' if t else 'zero'
+            z = q.zero_test(c, q.num_active_term(p))
+            if z:
+                na = z
         tr = [e['res'] for e in p.calls() if e['res'] in ('Foca::become_connected', 'Foca::become_disconnected', 'Foca::become_undead')]
         want = []
         if st == {'Disconnected'} and na == 'pos':
